@@ -984,9 +984,59 @@ def _omen_reader_strip(ctx, rule):
     return c07.r5_strip_discipline(ctx, rule, only=c11._OMEN_READERS, floor=4)
 
 
+def r19_loaded_model_unfiltered(ctx, rule):
+    """The tables the enumeration walks are the tables of the ruleset: load_rules hands `grammar` to the readers and does not
+    cut the tables down afterwards (seed C10-o: CP restricted to the prefixes that occur in IP - a transition may lead to an
+    n-gram that never starts a password, so every guess through it disappears from its level)."""
+    q = 'lib_guesser/omen/input_file_io.py::load_rules'
+    fn = ctx.fn(q)
+    ps = params(fn)
+    ctx.stats['functions'].add(q)
+    loads = [c for c in calls_in(fn) if any(isinstance(a, ast.Name) and a.id in ps for a in c.args) and (call_name(c) or '').startswith('_load')]
+    if not ctx.floor(rule, q, len(loads), 4, 'reader calls in load_rules'):
+        return
+    gnames = {a.id for c in loads for a in c.args if isinstance(a, ast.Name) and a.id in ps}
+    gnames = {g for g in gnames if sum(1 for c in loads if any(isinstance(a, ast.Name) and a.id == g for a in c.args)) == len(loads)
+              and g != ps[0]}
+    if len(gnames) != 1:
+        ctx.unk(rule, q, 'the dictionary every reader fills is not identifiable (%s)' % sorted(gnames))
+        return
+    g = gnames.pop()
+    ok = True
+
+    def root_is_g(e):
+        while isinstance(e, (ast.Subscript, ast.Attribute)):
+            e = e.value
+        return isinstance(e, ast.Name) and e.id == g
+
+    for n in walk_local(fn):
+        if isinstance(n, (ast.Assign, ast.AugAssign)):
+            tgts = n.targets if isinstance(n, ast.Assign) else [n.target]
+            for t in tgts:
+                if isinstance(t, ast.Subscript) and root_is_g(t):
+                    key = U(t)
+                    reads_self = any(isinstance(x, ast.Subscript) and U(x) == key and x is not t for x in ast.walk(n.value))
+                    ok = False
+                    if reads_self or isinstance(n, ast.AugAssign):
+                        ctx.bad(rule, q, '%s re-built from itself: %s' % (key, U(n.value)[:70]),
+                                'what the readers loaded must reach the generator unfiltered: every line of IP/CP/EP/LN.level belongs to the model',
+                                None, n, firm=True)
+                    else:
+                        ctx.unk(rule, q, 'load_rules itself stores %s - not a form this rule knows' % U(n)[:80])
+        elif isinstance(n, ast.Delete) and any(root_is_g(t) for t in n.targets):
+            ok = False
+            ctx.bad(rule, q, 'entry removed after loading: ' + U(n)[:70], 'what the readers loaded must reach the generator unfiltered', None, n, firm=True)
+        elif isinstance(n, ast.Call) and isinstance(n.func, ast.Attribute) and root_is_g(n.func.value) \
+                and n.func.attr in ('pop', 'popitem', 'clear', 'remove', 'discard', 'sort', 'reverse'):
+            ok = False
+            ctx.bad(rule, q, 'table altered after loading: ' + U(n)[:70], 'what the readers loaded must reach the generator unfiltered', None, n, firm=True)
+    if ok:
+        ctx.ok(rule, q, 'load_rules passes %s to %d readers and neither re-binds nor shrinks any of its tables' % (g, len(loads)))
+
+
 def rules(tier):
     return [('C10.R1', r1_copy_discipline), ('C10.R2', r2_memo_key), ('C10.R3', r3_sibling_constructions), ('C10.R4', r4_exact_last_transition),
-            ('C10.R5', r5_sibling_cursor_advance), ('C10.R6', r6_model_immutable), ('C10.R7', r7_prune_discipline), ('C10.R8', r8_guess_from_tree), ('C10.R9', r9_level_cursor_domain), ('C10.R10', r10_cache_key_agreement), ('C10.R11', r11_generator_state_per_object), ('C10.R12', r12_hit_implies_stored), ('C10.R13', r13_window_slices), ('C10.R14', r14_zero_budget_is_valid), ('C10.R15', _omen_reader_strip), ('C10.R16', r16_no_shared_defaults), ('C10.R17', _length_domain), ('C10.R18', r18_popped_level_read_once)]
+            ('C10.R5', r5_sibling_cursor_advance), ('C10.R6', r6_model_immutable), ('C10.R7', r7_prune_discipline), ('C10.R8', r8_guess_from_tree), ('C10.R9', r9_level_cursor_domain), ('C10.R10', r10_cache_key_agreement), ('C10.R11', r11_generator_state_per_object), ('C10.R12', r12_hit_implies_stored), ('C10.R13', r13_window_slices), ('C10.R14', r14_zero_budget_is_valid), ('C10.R15', _omen_reader_strip), ('C10.R16', r16_no_shared_defaults), ('C10.R17', _length_domain), ('C10.R18', r18_popped_level_read_once), ('C10.R19', r19_loaded_model_unfiltered)]
 
 
 META = {
